@@ -28,6 +28,7 @@ func (p *Program) source(file string) []byte {
 // ---------- frame conditions ----------
 
 type modLoc struct {
+	anyObj bool  // every object of the class
 	class string // class prefix
 	ref   *Term  // nil: any object of the class
 	arr   *Term  // slice element roots: backing array
@@ -60,6 +61,16 @@ func (ex *Exec) lvalueLocs(env *SpecEnv, e ast.Expr) []modLoc {
 	case *ast.ParenExpr:
 		return ex.lvalueLocs(env, x.X)
 	case *ast.SelectorExpr:
+		// any(T).f: field f of every object of type T
+		if call, ok := x.X.(*ast.CallExpr); ok {
+			if id, ok := call.Fun.(*ast.Ident); ok && id.Name == "any" && len(call.Args) == 1 {
+				t := env.resolveType(call.Args[0])
+				if t == nil {
+					tool("modifies: unknown type in %s", exprString(e))
+				}
+				return []modLoc{{class: typeName(t) + "." + x.Sel.Name, anyObj: true}}
+			}
+		}
 		base := env.eval(x.X)
 		t := base.T
 		if pt, ok := under(t).(*types.Pointer); ok {
@@ -170,6 +181,9 @@ func (ex *Exec) checkFrame(st *State, p *PtrV, pos token.Pos) {
 		}
 	}
 	for _, m := range top.Mods {
+		if m.anyObj && classMatches(class, m.class) {
+			return
+		}
 		if m.ref != nil && classMatches(class, m.class) || (m.ref != nil && len(p.Path) == 0 && strings.HasPrefix(m.class, class+".")) {
 			alts = append(alts, Eq(p.Ref, m.ref))
 		}
@@ -234,6 +248,26 @@ func (ex *Exec) checkImmutable(st *State, p *PtrV, pos token.Pos) {
 // havocLvalue havocs the locations named by a callee's modifies clause (and checks them against the caller's frame).
 func (ex *Exec) havocLvalue(st *State, fr *Frame, env *SpecEnv, m Clause, pos token.Pos) {
 	for _, loc := range ex.lvalueLocs(env, m.Expr) {
+		if loc.anyObj {
+			for class := range classSorts {
+				if classMatches(class, loc.class) {
+					st.havocClass(class)
+				}
+			}
+			st.HavPrefix = append(st.HavPrefix, loc.class)
+			if top := ex.topFrame(st); top.Spec != nil && !top.Spec.ModAll && ex.pure == nil {
+				ok := false
+				for _, mm := range top.Mods {
+					if mm.anyObj && mm.class == loc.class {
+						ok = true
+					}
+				}
+				if !ok {
+					ex.emit(st, "frame", "call:any:"+loc.class, False, pos, top.Spec.Props)
+				}
+			}
+			continue
+		}
 		if loc.arr != nil {
 			for class, srt := range classSorts {
 				if classMatches(class, loc.class) && srt.Kind == KArr && srt.Elem.Kind == KArr {
@@ -646,6 +680,8 @@ func (ex *Exec) checkPost(st *State, fr *Frame, res Value) {
 
 // ---------- top level ----------
 
+var verifySeq int
+
 func newState() *State {
 	return &State{Locals: map[*Cell]Value{}, Heap: map[string]*Term{}, Locks: map[string]int{}, Fresh: map[*Term]bool{}, Written: map[string]bool{}}
 }
@@ -673,8 +709,13 @@ func (ex *Exec) VerifyFunc(sp *FuncSpec) {
 	st.Frontier = hi0
 	st.assume(Le(Zero, hi0))
 	var args []Value
-	for _, p := range fn.Params {
-		v := namedValue("p:"+p.Name(), p.Type())
+	verifySeq++
+	for i, p := range fn.Params {
+		pname := p.Name()
+		if pname == "_" || pname == "" {
+			pname = fmt.Sprintf("_%d", i)
+		}
+		v := namedValue(fmt.Sprintf("p%d:%s", verifySeq, pname), p.Type())
 		args = append(args, v)
 		for _, f := range typeInv(p.Type(), v, hi0) {
 			st.assume(f)
@@ -685,7 +726,7 @@ func (ex *Exec) VerifyFunc(sp *FuncSpec) {
 		// closures verified as functions: free variables are cells holding unconstrained values
 		_ = i
 		t := fv.Type().(*types.Pointer).Elem()
-		ref := Var("fv:"+fv.Name(), SInt)
+		ref := Var(fmt.Sprintf("fv%d:%s", verifySeq, fv.Name()), SInt)
 		st.assume(And(Lt(Zero, ref), Le(ref, hi0)))
 		fr.Regs[fv] = objPtr(ref, t)
 	}
